@@ -64,6 +64,22 @@ func c14Drive(c *c14Conn) {
 func VerifC14History(q, max int) {
 	dlog.VerifInstall(source.Server)
 	config.Server.MaxConnections = max
+	// the server's own background jobs (they connect like any client and get no extra slots)
+	config.Server.Schedule, config.Server.Continuous = nil, nil
+	switch verifrt.Choose("background-jobs", 3) {
+	case 1:
+		var j config.Scheduled
+		j.Name, j.Enable = "nightly", true
+		config.Server.Schedule = []config.Scheduled{j}
+		verifrt.Reach("with-jobs")
+	case 2:
+		var j config.Continuous
+		j.Name, j.Enable = "cont", true
+		var d config.Scheduled
+		d.Name, d.Enable = "off", false
+		config.Server.Continuous = []config.Continuous{j}
+		config.Server.Schedule = []config.Scheduled{d}
+	}
 	config.Server.Permissions = config.Permissions{Default: []string{"^/.*$"}}
 	c14Authenticated = map[int]bool{}
 	s := &Server{catLimiter: make(chan struct{}, 2), tailLimiter: make(chan struct{}, 2), sshServerConfig: &gossh.ServerConfig{}}
